@@ -455,6 +455,63 @@ impl Gen {
         self.cb_stack.clear();
     }
 
+    /// Script (C07): `is_dead` on pointers the marker never traced.  From Sleep, build T, an
+    /// optional D and a holder H with a *weak* slot -> T (and a strong slot -> D); the root holds
+    /// only a weak pointer to H.  `finish_marking` straight from Sleeping (no mutation since marking
+    /// began) and, inside `finalize`: the root's weak pointer (target weakly marked), then — through
+    /// `upgrade` — H's own weak slot (target plain white: never traced), H's strong slot, and a weak
+    /// pointer made by `downgrade` inside the callback.  All four targets are unreachable: `is_dead`
+    /// must say so, for `Gc` and `GcWeak` alike.
+    fn dead_weak_script(&mut self, w: &World, ai: usize) {
+        if w.arenas[ai].phase != b'Z' {
+            self.push(ai, Op::Collect { method: Method::FinishCycle, cont: Cont::Drop, fault: None });
+        }
+        let n = w.arenas[ai].shadow.objs.len() as u32;
+        let ri = self.rng.below(4);
+        let with_d = self.rng.chance(2, 3);
+        let tk = [Kind::Node, Kind::Node, Kind::Leaf, Kind::DynNode][self.rng.below(4)];
+        self.push(ai, Op::Enter(Cb::MutateRoot));
+        self.push(ai, Op::Alloc { kind: tk, slots: vec![None; tk.alloc_args()] });
+        self.push(ai, Op::Downgrade(n));
+        let mut h = n + 1;
+        let d = if with_d {
+            self.push(ai, Op::Alloc { kind: Kind::Node, slots: vec![None, None, None] });
+            h += 1;
+            Some(n + 1)
+        } else {
+            None
+        };
+        let (wi, si) = [(0, 1), (1, 2), (2, 0)][self.rng.below(3)];
+        let mut slots = vec![None, None, None];
+        slots[wi] = Some(SP::W(n));
+        slots[si] = d.map(SP::S);
+        let hk = if self.rng.chance(1, 4) { Kind::DynNode } else { Kind::Node };
+        self.push(ai, Op::Alloc { kind: hk, slots });
+        self.push(ai, Op::Downgrade(h));
+        self.push(ai, Op::RootStore { i: ri, v: Some(SP::W(h)) });
+        self.push(ai, Op::Leave { panic: false });
+        self.push(ai, Op::Collect { method: Method::FinishMarking, cont: Cont::Finalize, fault: None });
+        // inside finalize (the executor enters it by itself; `want_finalize` says yes)
+        self.push(ai, Op::ReadRoot(ri));
+        self.push(ai, Op::IsDead(SP::W(h)));
+        self.push(ai, Op::Upgrade(h));
+        self.push(ai, Op::Read(h, wi));
+        self.push(ai, Op::IsDead(SP::W(n)));
+        if let Some(d) = d {
+            self.push(ai, Op::Read(h, si));
+            self.push(ai, Op::IsDead(SP::S(d)));
+            self.push(ai, Op::Downgrade(d));
+            self.push(ai, Op::IsDead(SP::W(d)));
+        }
+        self.push(ai, Op::IsDead(SP::S(h)));
+        if self.rng.chance(1, 3) {
+            // a finalizer of the form "if dead then resurrect" (is_dead is true here)
+            self.push(ai, Op::Resurrect(SP::W(n)));
+        }
+        self.push(ai, Op::Leave { panic: false });
+        self.push(ai, Op::Collect { method: Method::FinishCycle, cont: Cont::Drop, fault: None });
+    }
+
     /// an op that does nothing of interest: `readroot`, or — without a root — an allocation
     fn idle_op(&mut self, w: &World, ai: usize) {
         if w.arenas[ai].shadow.cb.is_some_and(|k| k.has_root()) {
@@ -1196,6 +1253,10 @@ impl Gen {
         }
         if self.profile == Profile::Soak {
             return self.soak_round(w, ai);
+        }
+        // C07: is_dead on weak pointers the marker never traced
+        if self.profile == Profile::Finalize && self.emitted + 25 < self.max_ops && self.rng.chance(1, 8) {
+            return self.dead_weak_script(w, ai);
         }
         // C10 / C11: faulted traces after other objects were traced, seen with positive debt (needs the
         // fault index to mean the same on both sides: no empty OnceLock cell around)
